@@ -918,7 +918,55 @@ class _XP:
 _xp_cache = {}
 
 
+def _split_union(expr):
+    """'(A | B | C)/rest' -> (['A', 'B', 'C'], '/rest'); None when `expr` is not a parenthesised union of paths."""
+    e = expr.strip()
+    if not e.startswith("("):
+        return None
+    depth, quote, close = 0, None, -1
+    parts, start = [], 1
+    for i, ch in enumerate(e):
+        if quote:
+            if ch == quote:
+                quote = None
+            continue
+        if ch in "\"'":
+            quote = ch
+        elif ch in "([":
+            depth += 1
+        elif ch in ")]":
+            depth -= 1
+            if depth == 0 and ch == ")":
+                close = i
+                break
+        elif ch == "|" and depth == 1:
+            parts.append(e[start:i].strip())
+            start = i + 1
+    if close < 0:
+        return None
+    parts.append(e[start:close].strip())
+    rest = e[close + 1:]
+    if len(parts) < 2 or (rest and not rest.startswith("/")):
+        return None
+    return parts, rest
+
+
 def _xpath_eval(ctx, expr, namespaces):
+    union = _split_union(expr) if isinstance(expr, str) and expr.lstrip().startswith("(") else None
+    if union is not None:
+        # a node-set union: results of the alternatives merged in document order without duplicates
+        found = []
+        for alt in union[0]:
+            for n in _xpath_eval(ctx, alt + union[1], namespaces):
+                if not any(n is m for m in found):
+                    found.append(n)
+        if all(isinstance(n, _Element) for n in found) and found:
+            root = found[0]
+            while root.getparent() is not None:
+                root = root.getparent()
+            order = {id(n): k for k, n in enumerate(root.iter())}
+            found.sort(key=lambda n: order.get(id(n), 0))
+        return found
     key = (expr, tuple(sorted((k or "", v) for k, v in namespaces.items())))
     parsed = _xp_cache.get(key)
     if parsed is None:
